@@ -21,6 +21,8 @@ type RPCase struct {
 	Idx     []int      `json:"idx"`
 	InLogN  int        `json:"inLogN"` // ring degree of the ciphertexts given to repack (MinLogN..LogN)
 	CtLevel int        `json:"ctLevel"`
+	LogGap  int        `json:"logGap,omitempty"` // expand: output gap; pack: inputLogGap
+	Twice   bool       `json:"twice,omitempty"`  // the operation is run a second time on the same evaluator with fresh inputs
 	Seed    uint64     `json:"seed"`
 }
 
@@ -34,7 +36,7 @@ func sizesOf(qs []uint64) []int {
 	return out
 }
 
-var rpOps = []string{"split", "merge", "extract", "extractNaive", "repack", "repackNaive"}
+var rpOps = []string{"split", "merge", "extract", "extractNaive", "repack", "repackNaive", "expand", "pack"}
 
 func genRP(t *rapid.T) RPCase {
 	var c RPCase
@@ -71,7 +73,7 @@ func genRP(t *rapid.T) RPCase {
 	}
 	c.GapN = rapid.IntRange(lo, hi).Draw(t, "gapN")
 	c.Key = genKey(t, c.Params, true)
-	c.Key.Compressed = false // the packing evaluator takes its keys as they are
+	// compressed keys are expanded by the harness after generation (the packing evaluator takes its keys as they are)
 	if rapid.IntRange(0, 2).Draw(t, "ctAtKeyLevel") == 0 {
 		c.CtLevel = c.Key.LevelQ
 	} else {
@@ -103,6 +105,23 @@ func genRP(t *rapid.T) RPCase {
 		sort.Ints(c.Idx)
 	}
 	c.InLogN = c.Params.LogN - c.GapN
+	switch c.Op {
+	case "expand":
+		c.LogGap = rapid.IntRange(0, c.Params.LogN).Draw(t, "expandLogGap")
+	case "pack":
+		c.LogGap = rapid.IntRange(1, c.Params.LogN).Draw(t, "packLogGap")
+		set := map[int]bool{}
+		k := rapid.IntRange(1, 6).Draw(t, "packCount")
+		for i := 0; i < k; i++ {
+			set[rapid.IntRange(0, (1<<c.LogGap)-1).Draw(t, fmt.Sprintf("packIdx%d", i))] = true
+		}
+		c.Idx = nil
+		for i := range set {
+			c.Idx = append(c.Idx, i)
+		}
+		sort.Ints(c.Idx)
+	}
+	c.Twice = rapid.IntRange(0, 2).Draw(t, "twice") == 0
 	c.Seed = rapid.Uint64().Draw(t, "seed")
 	return c
 }
@@ -139,6 +158,33 @@ func runRPInner(c RPCase, rec *h.Rec) error {
 		rpk.GenRepackEvaluationKeys(rpk.Parameters[ln], ski[ln], evkp)
 		rpk.GenExtractEvaluationKeys(rpk.Parameters[ln], ski[ln], evkp)
 	}
+	if c.Key.Compressed {
+		expand := func(k *rlwe.EvaluationKey, ln int) error {
+			if !k.IsCompressed() || k.Seed == nil {
+				return h.Failf("C04:keygen:compressed-key-without-seed", "packing key: IsCompressed()=%v seed nil=%v", k.IsCompressed(), k.Seed == nil)
+			}
+			if err := k.Expand(rpk.Parameters[ln], nil); err != nil {
+				return h.Failf("C04:Expand:error", "packing key: %v", err)
+			}
+			return nil
+		}
+		for i, mp := range rpk.RingSwitchingKeys {
+			for j, k := range mp {
+				if err := expand(k, maxInt(i, j)); err != nil {
+					return err
+				}
+			}
+		}
+		for _, sets := range []map[int]rlwe.EvaluationKeySet{rpk.RepackKeys, rpk.ExtractKeys} {
+			for ln, set := range sets {
+				for _, gk := range set.(*rlwe.MemEvaluationKeySet).GaloisKeys {
+					if err := expand(&gk.EvaluationKey, ln); err != nil {
+						return err
+					}
+				}
+			}
+		}
+	}
 	eval := rlwe.NewRingPackingEvaluator(rpk)
 
 	pOf := func(ln int) rlwe.Parameters { return *rpk.Parameters[ln].GetRLWEParameters() }
@@ -150,7 +196,9 @@ func runRPInner(c RPCase, rec *h.Rec) error {
 			s1 = v
 		}
 	}
-	enc := func(ln int, m []*big.Int) *rlwe.Ciphertext { return freshCt(pOf(ln), sOf[ln], false, m, lvl, rng, "uniform", s.NTT) }
+	enc := func(ln int, m []*big.Int) *rlwe.Ciphertext {
+		return freshCt(pOf(ln), sOf[ln], false, m, lvl, rng, "uniform", s.NTT)
+	}
 	dec := func(ct *rlwe.Ciphertext) []*big.Int { return phase(pOf(ct.LogN()).RingQ(), ct, sOf[ct.LogN()], false) }
 
 	// generous hard bound: every operation is at most (logN+2) rounds of "double the noise and add one key switch",
@@ -174,108 +222,163 @@ func runRPInner(c RPCase, rec *h.Rec) error {
 		return z
 	}
 
-	switch c.Op {
-	case "split":
-		m := uniformVec(rng, 1<<logN, Q)
-		ct := enc(logN, m)
-		ev, od, err := eval.SplitNew(ct)
-		if err != nil {
-			return h.Failf("C04:packing:split:error", "SplitNew: %v", err)
-		}
-		we, wo := zero(1<<(logN-1)), zero(1<<(logN-1))
-		for i := range we {
-			we[i], wo[i] = m[2*i], m[2*i+1]
-		}
-		cmps = append(cmps, cmp{"even", dec(ev), we, false}, cmp{"odd", dec(od), wo, false})
-	case "merge":
-		n := 1 << (logN - 1)
-		me, mo := uniformVec(rng, n, Q), uniformVec(rng, n, Q)
-		ct, err := eval.MergeNew(enc(logN-1, me), enc(logN-1, mo))
-		if err != nil {
-			return h.Failf("C04:packing:merge:error", "MergeNew: %v", err)
-		}
-		w := zero(2 * n)
-		for i := 0; i < n; i++ {
-			w[2*i], w[2*i+1] = me[i], mo[i]
-		}
-		cmps = append(cmps, cmp{"merged", dec(ct), w, false})
-	case "extract", "extractNaive":
-		m := uniformVec(rng, 1<<logN, Q)
-		ct := enc(logN, m)
-		idx := map[int]bool{}
-		for _, i := range c.Idx {
-			idx[i] = true
-		}
-		var cts map[int]*rlwe.Ciphertext
-		if c.Op == "extract" {
-			cts, err = eval.Extract(ct, idx)
-		} else {
-			cts, err = eval.ExtractNaive(ct, idx)
-		}
-		if err != nil {
-			msg := fmt.Sprintf("%s: %v (idx=%v, MinLogN=%d, MaxLogN=%d)", c.Op, err, c.Idx, minLogN, logN)
-			if c.Op == "extract" && extractGapDefect(c.Idx) && rec.Known(keyExtractGap, msg) {
-				rec.Class("known=" + keyExtractGap)
-				return nil
+	rounds := 1
+	if c.Twice {
+		rounds = 2
+	}
+	for r := 0; r < rounds; r++ {
+		switch c.Op {
+		case "split":
+			m := uniformVec(rng, 1<<logN, Q)
+			ct := enc(logN, m)
+			ev, od, err := eval.SplitNew(ct)
+			if err != nil {
+				return h.Failf("C04:packing:split:error", "SplitNew: %v", err)
 			}
-			return h.Failf("C04:packing:"+c.Op+":error", "%s", msg)
-		}
-		for _, i := range c.Idx {
-			o, ok := cts[i]
-			if !ok || o == nil {
-				return h.Failf("C04:packing:"+c.Op+":missing-index", "no ciphertext returned for index %d (idx=%v)", i, c.Idx)
+			we, wo := zero(1<<(logN-1)), zero(1<<(logN-1))
+			for i := range we {
+				we[i], wo[i] = m[2*i], m[2*i+1]
 			}
-			if o.LogN() != minLogN {
-				return h.Failf("C04:packing:"+c.Op+":ring-degree", "index %d: logN=%d, want MinLogN=%d", i, o.LogN(), minLogN)
+			cmps = append(cmps, cmp{"even", dec(ev), we, false}, cmp{"odd", dec(od), wo, false})
+		case "merge":
+			n := 1 << (logN - 1)
+			me, mo := uniformVec(rng, n, Q), uniformVec(rng, n, Q)
+			ct, err := eval.MergeNew(enc(logN-1, me), enc(logN-1, mo))
+			if err != nil {
+				return h.Failf("C04:packing:merge:error", "MergeNew: %v", err)
 			}
-			w := zero(1 << minLogN)
-			w[0] = m[i]
-			cmps = append(cmps, cmp{fmt.Sprintf("idx%d", i), dec(o), w, c.Op == "extractNaive"})
-		}
-	case "repack", "repackNaive":
-		n := 1 << c.InLogN
-		cts := map[int]*rlwe.Ciphertext{}
-		w := zero(1 << logN)
-		for _, i := range c.Idx {
-			var m []*big.Int
-			if c.Op == "repack" {
-				m = uniformVec(rng, n, Q) // non-constant coefficients are documented to be zeroed
+			w := zero(2 * n)
+			for i := 0; i < n; i++ {
+				w[2*i], w[2*i+1] = me[i], mo[i]
+			}
+			cmps = append(cmps, cmp{"merged", dec(ct), w, false})
+		case "extract", "extractNaive":
+			m := uniformVec(rng, 1<<logN, Q)
+			ct := enc(logN, m)
+			idx := map[int]bool{}
+			for _, i := range c.Idx {
+				idx[i] = true
+			}
+			var cts map[int]*rlwe.Ciphertext
+			if c.Op == "extract" {
+				cts, err = eval.Extract(ct, idx)
 			} else {
-				m = zero(n)
-				m[0] = uniformVec(rng, 1, Q)[0]
+				cts, err = eval.ExtractNaive(ct, idx)
 			}
-			w[i] = m[0]
-			cts[i] = enc(c.InLogN, m)
-		}
-		var ct *rlwe.Ciphertext
-		if c.Op == "repack" {
-			ct, err = eval.Repack(cts)
-		} else {
-			ct, err = eval.RepackNaive(cts)
-		}
-		if err != nil {
-			key := "C04:packing:" + c.Op + ":error"
-			msg := fmt.Sprintf("%v (idx=%v, MinLogN=%d, MaxLogN=%d)", err, c.Idx, minLogN, logN)
-			if c.GapN > 0 && rec.Known(keyRepackSparse, msg) {
-				rec.Class("known=" + keyRepackSparse)
+			if err != nil {
+				msg := fmt.Sprintf("%s: %v (idx=%v, MinLogN=%d, MaxLogN=%d)", c.Op, err, c.Idx, minLogN, logN)
+				if c.Op == "extract" && extractGapDefect(c.Idx) && rec.Known(keyExtractGap, msg) {
+					rec.Class("known=" + keyExtractGap)
+					return nil
+				}
+				return h.Failf("C04:packing:"+c.Op+":error", "%s", msg)
+			}
+			for _, i := range c.Idx {
+				o, ok := cts[i]
+				if !ok || o == nil {
+					return h.Failf("C04:packing:"+c.Op+":missing-index", "no ciphertext returned for index %d (idx=%v)", i, c.Idx)
+				}
+				if o.LogN() != minLogN {
+					return h.Failf("C04:packing:"+c.Op+":ring-degree", "index %d: logN=%d, want MinLogN=%d", i, o.LogN(), minLogN)
+				}
+				w := zero(1 << minLogN)
+				w[0] = m[i]
+				cmps = append(cmps, cmp{fmt.Sprintf("idx%d", i), dec(o), w, c.Op == "extractNaive"})
+			}
+		case "repack", "repackNaive":
+			n := 1 << c.InLogN
+			cts := map[int]*rlwe.Ciphertext{}
+			w := zero(1 << logN)
+			for _, i := range c.Idx {
+				var m []*big.Int
+				if c.Op == "repack" {
+					m = uniformVec(rng, n, Q) // non-constant coefficients are documented to be zeroed
+				} else {
+					m = zero(n)
+					m[0] = uniformVec(rng, 1, Q)[0]
+				}
+				w[i] = m[0]
+				cts[i] = enc(c.InLogN, m)
+			}
+			var ct *rlwe.Ciphertext
+			if c.Op == "repack" {
+				ct, err = eval.Repack(cts)
+			} else {
+				ct, err = eval.RepackNaive(cts)
+			}
+			if err != nil {
+				key := "C04:packing:" + c.Op + ":error"
+				msg := fmt.Sprintf("%v (idx=%v, MinLogN=%d, MaxLogN=%d)", err, c.Idx, minLogN, logN)
+				if c.GapN > 0 && rec.Known(keyRepackSparse, msg) {
+					rec.Class("known=" + keyRepackSparse)
+					return nil
+				}
+				return h.Failf(key, "%s", msg)
+			}
+			if ct == nil {
+				msg := fmt.Sprintf("%s returned a nil ciphertext and a nil error (idx=%v, MinLogN=%d, MaxLogN=%d)", c.Op, c.Idx, minLogN, logN)
+				if c.GapN > 0 && rec.Known(keyRepackSparse, msg) {
+					rec.Class("known=" + keyRepackSparse)
+					return nil
+				}
+				return h.Failf("C04:packing:"+c.Op+":nil", "%s", msg)
+			}
+			if ct.LogN() != logN {
+				return h.Failf("C04:packing:"+c.Op+":ring-degree", "logN=%d, want MaxLogN=%d", ct.LogN(), logN)
+			}
+			cmps = append(cmps, cmp{"packed", dec(ct), w, false})
+		case "expand":
+			ln := c.InLogN // Expand works inside one ring degree
+			n := 1 << ln
+			m := uniformVec(rng, n, Q)
+			cts, err := eval.Expand(enc(ln, m), c.LogGap)
+			if err != nil {
+				return h.Failf("C04:packing:expand:error", "Expand(logGap=%d): %v", c.LogGap, err)
+			}
+			for i := 0; i < n; i += 1 << c.LogGap {
+				o, ok := cts[i]
+				if !ok || o == nil {
+					return h.Failf("C04:packing:expand:missing-index", "no ciphertext for index %d (logGap=%d, logN=%d)", i, c.LogGap, ln)
+				}
+				w := zero(n)
+				w[0] = m[i]
+				cmps = append(cmps, cmp{fmt.Sprintf("idx%d", i), dec(o), w, false})
+			}
+		case "pack":
+			ln := c.InLogN
+			n := 1 << ln
+			g := c.LogGap
+			if g > ln {
+				g = ln
+			}
+			G := 1 << g
+			cts := map[int]*rlwe.Ciphertext{}
+			w := zero(n)
+			for _, j := range c.Idx {
+				if j >= G {
+					continue
+				}
+				m := uniformVec(rng, n, Q) // slots that are not multiples of 2^g are garbage, documented to be zeroed
+				for k := 0; k < n; k += G {
+					w[j+k] = m[k]
+				}
+				cts[j] = enc(ln, m)
+			}
+			if len(cts) == 0 {
 				return nil
 			}
-			return h.Failf(key, "%s", msg)
-		}
-		if ct == nil {
-			msg := fmt.Sprintf("%s returned a nil ciphertext and a nil error (idx=%v, MinLogN=%d, MaxLogN=%d)", c.Op, c.Idx, minLogN, logN)
-			if c.GapN > 0 && rec.Known(keyRepackSparse, msg) {
-				rec.Class("known=" + keyRepackSparse)
-				return nil
+			ct, err := eval.Pack(cts, g, true)
+			if err != nil {
+				return h.Failf("C04:packing:pack:error", "Pack(inputLogGap=%d, idx=%v): %v", g, c.Idx, err)
 			}
-			return h.Failf("C04:packing:"+c.Op+":nil", "%s", msg)
+			if ct == nil {
+				return h.Failf("C04:packing:pack:nil", "Pack(inputLogGap=%d, idx=%v) returned (nil, nil)", g, c.Idx)
+			}
+			cmps = append(cmps, cmp{"packed", dec(ct), w, false})
+		default:
+			return h.Failf("C04:harness:op", "unknown op %q", c.Op)
 		}
-		if ct.LogN() != logN {
-			return h.Failf("C04:packing:"+c.Op+":ring-degree", "logN=%d, want MaxLogN=%d", ct.LogN(), logN)
-		}
-		cmps = append(cmps, cmp{"packed", dec(ct), w, false})
-	default:
-		return h.Failf("C04:harness:op", "unknown op %q", c.Op)
+
 	}
 
 	worst := new(big.Int)
